@@ -127,6 +127,53 @@ def series_sweep(rep, rng, n):
             rep.property_failure(c, "SeriesSchema.validate succeeded without parsing options but returned a different series")
 
 
+def revalidation_sweep(rep, cases, answers):
+    """validation has no memory: an object that was validated (or rejected) before and has been changed in place since is
+    judged like a fresh object with the same contents — same schema *object*, the returned frame / the frame attached
+    to the error / the frame of an `inplace=True` call"""
+    import warnings
+    import numpy as np
+    import pandera as pa
+    done = 0
+    for c, a in zip(cases, answers):
+        if done >= 150 or "error" in a or not a.get("wf") or not a.get("sat") or a.get("inK"):
+            continue
+        S, D = c["schema"], c["frame"]
+        if not D["nrows"] or not P.checks_typed(c):
+            continue
+        target = next((sp for sp in S["columns"] if sp["regex"] is None and not sp["nullable"] and sp["dtype"] in ("float64", "str")
+                       and any(col["name"] == sp["name"] and col["dtype"] == sp["dtype"] for col in D["cols"])), None)
+        if target is None:
+            continue
+        done += 1
+        schema = A.schema_of(S)
+        for how in ("returned", "inplace"):
+            df = A.frame_of(D)
+            with warnings.catch_warnings():
+                warnings.simplefilter("ignore")
+                try:
+                    out = schema.validate(df, inplace=(how == "inplace"))
+                except Exception:  # noqa: BLE001
+                    break
+                j = out.columns.get_loc(target["name"])
+                out.iloc[0, j] = np.nan if target["dtype"] == "float64" else None
+                fresh = out.copy(deep=True)
+                fresh.attrs = {}
+                k_again, _ = P.run_validate(schema, out, lazy=False)
+                k_fresh, _ = P.run_validate(A.schema_of(S), pd_rebuild(fresh), lazy=False)
+            rep.evaluations += 1
+            rep.count(f"revalidate:{how}:{k_again}")
+            if k_again == "ok":
+                rep.property_failure({"mode": "revalidate", "how": how, "schema": S, "frame": D, "column": target["name"]},
+                                     f"a frame {how} by a successful validate, then given a null in the non-nullable column "
+                                     f"{target['name']!r} in place, is accepted by the same schema object (a fresh copy: {k_fresh})")
+
+
+def pd_rebuild(df):
+    import pandas as pd
+    return pd.DataFrame({c: df[c].values for c in df.columns}, index=df.index.copy())
+
+
 def multiindex_sweep(rep, rng, n):
     """MultiIndex schemas: the backend validates the index levels as the columns of a dataframe, so the declared
     semantics is `Sat` of the level components over the frame of levels (Lean, C01's driver); entries: a
@@ -336,6 +383,10 @@ def run(tier, replay=None):
     rep.audit["modules"] = MODULES
     if replay:
         cases = [json.loads(open(replay).read())["case"]]
+        if cases[0].get("mode") == "revalidate":
+            rc_ = [{"schema": cases[0]["schema"], "frame": cases[0]["frame"]}]
+            revalidation_sweep(rep, rc_, run_driver("C01", [dict(x, depth="schemaAndData") for x in rc_]))
+            return rep.finish(rule="replay")
         if cases[0].get("mode") == "multiindex":
             multiindex_sweep(rep, rng_for(PROP, "multiindex"), 300)
             return rep.finish(rule="replay of the MultiIndex sweep (deterministic under VERIF_SEED)")
@@ -394,6 +445,8 @@ def run(tier, replay=None):
                                      detail={"impl": o, "model_errors": a["errors"][:3]})
         if impl_accept and not o.get("same", True):
             rep.property_failure(c, "validation succeeded without parsing options but the returned frame differs from the input")
+    if not replay:
+        revalidation_sweep(rep, cases, ans)
     return rep.finish(
         rule="random (schema, frame) pairs over the declarative vocabulary (1-4 columns of int64/float64/str/bool/"
              "datetime, regex names, strict, ordered, joint uniqueness, single Index, 0-2 built-in checks per field, "
